@@ -167,6 +167,7 @@ type ContractFile struct {
 	Globals    []*GlobalFact
 	Immutable  []string    // T.f: fields assigned only while their object is being constructed
 	Preds      []*SpecFunc // heap-reading predicates, expanded in place (macros over the current state)
+	Stateless  [][]string  // `stateless package [props]`: the package keeps no mutable package-level state
 }
 
 // GlobalFact: a fact about package-level variables that are assigned only by the package initialiser.
@@ -177,7 +178,7 @@ type GlobalFact struct {
 	Pkg    string
 }
 
-var topKeywords = map[string]bool{"immutable": true, "pred": true, "global": true, "spec": true, "ghost": true, "invariant": true, "guarded": true, "channel": true, "lemma": true, "axiom": true, "extern": true, "interface": true, "func": true, "default": true}
+var topKeywords = map[string]bool{"immutable": true, "pred": true, "global": true, "spec": true, "ghost": true, "invariant": true, "guarded": true, "channel": true, "lemma": true, "axiom": true, "extern": true, "interface": true, "func": true, "default": true, "stateless": true}
 var subKeywords = map[string]bool{"after": true, "assumes": true, "props": true, "model": true, "strings": true, "bytes": true, "requires": true, "ensures": true, "panics": true, "assigns": true, "pure": true, "loop": true, "at": true, "flag": true, "decreases": true, "use": true, "known": true, "hyp": true, "protects": true, "clause": true}
 
 type rawLine struct {
@@ -253,6 +254,15 @@ func ParseContractLines(pkg, path string, lines []rawLine) *ContractFile {
 			}
 		case "immutable":
 			cf.Immutable = append(cf.Immutable, splitList(d.text)...)
+		case "stateless":
+			// stateless package [C10,C14]
+			var props []string
+			for _, x := range strings.Fields(d.text) {
+				if strings.HasPrefix(x, "[") {
+					props = strings.Split(strings.Trim(x, "[]"), ",")
+				}
+			}
+			cf.Stateless = append(cf.Stateless, props)
 		case "pred":
 			// pred name(params) = expr     (boolean; may read fields; expanded at each use in the state of the use)
 			t := strings.TrimSpace(d.text)
